@@ -301,3 +301,17 @@ Proof.
         -- apply upd_fiber_id. apply Hnot. left. reflexivity.
         -- rewrite upd_fiber_id; [|apply Hnot; left; reflexivity]. intros f' Hf'. apply Hnot. right. exact Hf'.
 Qed.
+
+(* ---------- copy(preserve_owner=False) *)
+Lemma attach_attrs_lo lo base d n t : forall k,
+  lo <= base -> lo_ok lo t -> lo_ok lo (attach_attrs base d n k t).
+Proof.
+  induction t as [b v | f a es IH] using lt_ind'; intros k Hle Ht; cbn [attach_attrs]; [exact Ht|].
+  apply lo_LF in Ht. destruct Ht as [Hf [Ha Hes]]. apply lo_LF. split; [exact Hf|]. split.
+  - unfold aux_labels. cbn [a_attrs a_def a_own olab]. intros l [<- | Hl]; [lia|].
+    rewrite app_nil_r in Hl. destruct (Nat.eqb (S k) n); cbn in Hl; [destruct Hl as [<- | []]; lia | destruct Hl].
+  - apply lo_es_iff. intros ct Hin. apply in_map_iff in Hin. destruct Hin as [ct0 [<- Hin0]]. cbn [snd].
+    pose proof (proj1 (lo_es_iff lo es) Hes _ Hin0) as H0.
+    destruct (l_empty d (snd ct0)); [exact H0|].
+    rewrite Forall_forall in IH. apply IH; [exact Hin0 | exact Hle | exact H0].
+Qed.
